@@ -9,6 +9,7 @@ import shutil
 import time
 
 import e2e
+from common import pool_results
 import implrun
 import oracles_e2e
 import pkggen
@@ -129,7 +130,7 @@ def run(ctx) -> None:
     implrun.WORK.mkdir(exist_ok=True)
     t0 = time.time()
     with mp.get_context("fork").Pool(min(16, os.cpu_count() or 4)) as pool:
-        for r in pool.imap_unordered(one_case, tasks, chunksize=1):
+        for r in pool_results(pool, one_case, tasks, ctx.deadline):
             if time.time() > ctx.deadline:
                 pool.terminate()
                 break
